@@ -35,6 +35,9 @@ UAB = [
     ("1.2.840.10008.5.1.4.1.2.1.1", False),     # Patient Root Query/Retrieve Information Model - FIND
     ("1.2.826.0.1.3680043.9.3811.9.9", True),   # private root  -> treated as storage
     ("1.2.840.10008.5.1.4.1.1.9999", True),     # unknown public -> treated as storage
+    ("1.2.840.10008.5.1.4.1.1.6", True),        # Ultrasound Image Storage (Retired): a storage SOP class (PS3.4 B.5 of
+                                                #   earlier editions, still in PS3.6) that has a name in pydicom's UID
+                                                #   dictionary but no class in pynetdicom.sop_class
 ]
 
 
@@ -251,12 +254,12 @@ def acceptor_structure(k: List[int], ab: List[int], wide: List[bool], sup0: bool
            "classification storage / not storage of the 5 pool members is written down from PS3.4 in the harness"],
     outside="pools larger than 5; more than two contexts in this mode",
     findings=["C10-unrestricted-default-role", "C10-unrestricted-no-role"],
-    shards=[{"u1": u} for u in range(5)],
+    shards=[{"u1": u} for u in range(len(UAB))],
 )
 def acceptor_unrestricted(u1: int, u2: int, wide: bool, in_supported: bool, cfg_set: bool, has_role: bool,
                           rq_scu: bool, rq_scp: bool) -> bool:
     """
-    pre: 0 <= u1 <= 4 and 0 <= u2 <= 4
+    pre: 0 <= u1 <= 5 and 0 <= u2 <= 5
     pre: shard("u1") is None or u1 == shard("u1")
     pre: not kf.skip("C10-unrestricted-default-role", u1=u1, u2=u2, has_role=has_role, rq_scu=rq_scu, rq_scp=rq_scp)
     pre: not kf.skip("C10-unrestricted-no-role", u1=u1, u2=u2, has_role=has_role, rq_scu=rq_scu, rq_scp=rq_scp)
@@ -327,7 +330,7 @@ def _role_item(uid, scu, scp):
            "_config.UNRESTRICTED_STORAGE_SERVICE is set for the call and restored",
            "abstract/transfer syntax UIDs are fixed pool members"],
     outside="AE-title / user-identity / association-limit checks (C13, C14); the wire encoding of the response (C11, C12)",
-    shards=[{"u": u, "unr": m, "ss": r} for u in range(5) for m in (0, 1) for r in (0, 1)],
+    shards=[{"u": u, "unr": m, "ss": r} for u in range(len(UAB)) for m in (0, 1) for r in (0, 1)],
     findings=["C10-unrestricted-default-role-acse", "C10-unrestricted-no-role-acse"],
 )
 def acceptor_acse(unrestricted: bool, in_supported: bool, scu_set: bool, cfg_scu: bool, scp_set: bool, cfg_scp: bool,
